@@ -209,7 +209,3 @@ theorem boundary_K_real :
 
 end Tdms.Proofs.C18
 
-#print axioms Tdms.Proofs.C18.expEnclosure_sound
-#print axioms Tdms.Proofs.C18.forwardEnclosure_sound
-#print axioms Tdms.Proofs.C18.forwardExp_K_nonpos
-#print axioms Tdms.Proofs.C18.boundary_K_real
